@@ -462,42 +462,23 @@ Lemma combiner_head_k w p n : KI w -> KI (fst (combiner_head w p n)).
 Proof. intros H. unfold combiner_head. kgo3. Qed.
 #[local] Hint Resolve combiner_head_k : kdb.
 
-Lemma combiner_rep_k e p k0 j : forall a, KI (fst (fst a)) ->
-  KI (fst (fst ((fix rep (j : nat) (a : world * list nat * list nat) :=
-                   match j with
-                   | O => a
-                   | S j' => let '(w0, ts, ix) := a in
-                             let '(w1, t) := e_reserve_get w0 e p in rep j' (w1, ts ++ [t], ix ++ [k0])
-                   end) j a))).
+Lemma combiner_rep_k e p k0 j : forall a, KI (fst (fst a)) -> KI (fst (fst (comb_rep e p k0 j a))).
 Proof.
-  induction j as [|j IH]; intros [[w0 ts] ix] H; cbn [fst] in *; auto.
+  induction j as [|j IH]; intros [[w0 ts] ix] H; simpl; auto.
   destruct (e_reserve_get w0 e p) as [w1 t] eqn:E. apply IH. cbn [fst]. eapply e_reserve_get_k; eauto.
+Qed.
+
+Lemma combiner_go_k rc p es : forall k acc r, KI (fst (fst acc)) -> comb_go rc p k es acc = Some r -> KI (fst (fst r)).
+Proof.
+  induction es as [|e es IH]; simpl; intros k acc r HA EQ.
+  - inversion EQ; subst; auto.
+  - destruct (nth_error rc k) as [q|]; [|discriminate]. eapply IH; [|exact EQ]. apply combiner_rep_k. exact HA.
 Qed.
 
 Lemma combiner_reserve_k w p n w1 a b : combiner_reserve w p n = Some (w1, a, b) -> KI w -> KI w1.
 Proof.
   unfold combiner_reserve. intros E H.
-  assert (forall es k acc r, KI (fst (fst acc)) ->
-    (fix go (k : nat) (es : list nat) (acc : world * list nat * list nat) : option (world * list nat * list nat) :=
-       match es with
-       | [] => Some acc
-       | e :: rest =>
-           match nth_error (nrecipe (get_node w n)) k with
-           | None => None
-           | Some q =>
-               let acc' := (fix rep (j : nat) (a : world * list nat * list nat) :=
-                              match j with
-                              | O => a
-                              | S j' => let '(w0, ts, ix) := a in
-                                        let '(w1, t) := e_reserve_get w0 e p in rep j' (w1, ts ++ [t], ix ++ [k])
-                              end) q acc in
-               go (S k) rest acc'
-           end
-       end) k es acc = Some r -> KI (fst (fst r))) as G.
-  { induction es as [|e es IH]; intros k acc r HA EQ.
-    - inversion EQ; subst; auto.
-    - destruct (nth_error _ k) as [q|]; [|discriminate]. eapply IH; [|exact EQ]. apply combiner_rep_k. exact HA. }
-  assert (KI (fst (fst (w1, a, b)))) as K by (eapply G; [|exact E]; cbn [fst]; exact H). exact K.
+  assert (KI (fst (fst (w1, a, b)))) as K by (eapply combiner_go_k; [|exact E]; cbn [fst]; exact H). exact K.
 Qed.
 
 Lemma combiner_loop_k w p n : KI w -> KI (fst (combiner_loop w p n)).
